@@ -76,6 +76,12 @@ Proof.
 Qed.
 Print Assumptions C09_codes_are_source.
 
+(* each handler's tests, index / make operations, reads and core calls occur in the source
+   in the order the model performs them *)
+Theorem C09_check_order_is_source : source_order = handler_checks.
+Proof. exact checks_match. Qed.
+Print Assumptions C09_check_order_is_source.
+
 (* ------------------------------------------------------------------ limits *)
 (* Every effect handed to the core is within the configured limits ([out_ok]):
    Enqueue: valid topic name, 1 <= |body| <= max-msg-size, 0 <= defer <= max-req-timeout;
